@@ -14,7 +14,7 @@ Oracle clauses (violation key = C14:<clause>:<site or field>):
   chain:<kind>                           the parser did not give back the <kind> header that was packed
   field:<kind>.<attr>                    a header field differs after the round trip
   payload:<kind>                         the innermost payload differs after the round trip
-  repack:<kind>@<offset>                 pack(parse(b)) != b, first differing byte located in <kind>
+  repack:<kind>@<offset>                 pack(parse(b)) != b; <kind> is the innermost header whose bytes differ
   length:<where>.<field>, checksum:<where>   emitted length / checksum field != reference
   checksum-fn:<class>                    packet_utils.checksum() != RFC 1071 on a bare buffer
 """
@@ -212,10 +212,11 @@ def check_case (P, st, devs, plen):
   # ---- emitted length and checksum fields vs the independent implementation ----------------
   r = R.verify_frame(b)
   for clause, where, field, want, got in r.issues:
+    where_key = where.rsplit(">", 1)[-1]          # tunnels (gre>, vxlan>) run the same code: one key
     if clause == "checksum":
-      c.bad("checksum:%s" % where, "%s %s in the frame is %#06x, RFC 1071 over the raw bytes gives %#06x" % (where, field, got, want))
+      c.bad("checksum:%s" % where_key, "%s %s in the frame is %#06x, RFC 1071 over the raw bytes gives %#06x" % (where, field, got, want))
     else:
-      c.bad("length:%s.%s" % (where, field), "%s %s in the frame is %s, the raw bytes say %s" % (where, field, got, want))
+      c.bad("length:%s.%s" % (where_key, field), "%s %s in the frame is %s, the raw bytes say %s" % (where, field, got, want))
   # header-length fields against the options that were asked for
   for i, k in enumerate(kinds):
     if k == "ipv4":
@@ -352,13 +353,14 @@ def _run_part (rep, name, part):
 _worker.quick = True
 
 
-CSUM_PATTERNS = ["zeros", "ones", "ramp", "carry", "fold-twice", "high-last"]
+CSUM_PATTERNS = ["zeros", "ones", "ramp", "carry", "fold-twice", "fold-twice-le", "high-last"]
 
 def csum_buffer (n, pat):
   if pat == "zeros": return b"\x00" * n
   if pat == "ones": return b"\xff" * n
   if pat == "ramp": return K.pattern(n)
   if pat == "carry": return (b"\xff\xfe\x00\x02" * (n // 4 + 1))[:n]
+  if pat == "fold-twice-le": return (b"\xff\xff\xff\xff\x01\x00" + b"\x00" * n)[:n]   # same, for little-endian word loads
   if pat == "fold-twice": return (b"\xff\xff\xff\xff\x00\x01" + b"\x00" * n)[:n]      # 0x1ffff: the folded sum carries again
   return b"\x00" * (n - 1) + b"\x80" if n else b""
 
@@ -447,9 +449,10 @@ def run (cfg):
   nd = sum(len(K.deviations(K.STACKS[n])) for n in names)
   rep.rule = ("E-enum over mc/refs/pktcorpus.STACKS: %d header stacks (each L3 stack also behind an 802.1Q tag); per stack the "
               "fingerprint base vector x every payload length of the stack's range (0..1500 for udp, tcp, icmp-echo over IPv4; "
-              "{0,1,2,3,17,18,1499,1500} otherwise%s), every single deviation of a field to one of its boundary values / option-list "
+              "{0,1,2,3,17,18,1499,1500} otherwise%s; on .../ip/udp stacks also a 2-byte payload that makes the UDP checksum compute to 0), "
+              "every single deviation of a field to one of its boundary values / option-list "
               "shapes (%d deviations) x payload %s, every pair of deviations in different fields x payload %s%s; plus "
-              "packet_utils.checksum on bare buffers of every length 0..%d x 6 byte patterns x skip_word {None,0,1,last}. "
+              "packet_utils.checksum on bare buffers of every length 0..%d x 7 byte patterns x skip_word {None,0,1,last}. "
               "Each case: assemble with the POX classes, pack, parse, compare chain/fields/payload, re-pack, verify length and "
               "checksum fields with refs/rfc1071 over raw offsets. distinct = distinct (violated clauses, emitted frame, parsed chain)"
               % (len(names), "" if quick else "; thorough: 0..1500 on every stack whose range reaches 1500", nd,
